@@ -183,7 +183,30 @@ static int fragments_needed_one_data_local(xor_code_t *code_desc,
 {
   int *missing_data = get_missing_data(code_desc, fragments_to_exclude);
   int *missing_parity = get_missing_parity(code_desc, fragments_to_exclude);
-  int parity_index = index_of_connected_parity(code_desc, fragment_to_reconstruct, missing_parity, missing_data);
+  int parity_index = -1;
+  int num_missing_data = 0;
+  int listed = 0;
+
+  /*
+   * The element to rebuild is unavailable too: count it together with the
+   * excluded data elements (once), so that a parity equation which also holds
+   * an excluded data element (two unavailable members) is not taken for a
+   * usable one (the answer would name the excluded element).
+   */
+  while (missing_data[num_missing_data] > -1) {
+    if (missing_data[num_missing_data] == fragment_to_reconstruct) {
+      listed = 1;
+    }
+    num_missing_data++;
+  }
+  if (!listed && num_missing_data < MAX_DATA - 1) {
+    missing_data[num_missing_data] = fragment_to_reconstruct;
+    missing_data[num_missing_data + 1] = -1;
+    listed = 1;
+  }
+  if (listed) {
+    parity_index = index_of_connected_parity(code_desc, fragment_to_reconstruct, missing_parity, missing_data);
+  }
   free(missing_data);
   free(missing_parity);
 
